@@ -305,7 +305,7 @@ RETIRE_ARGS = (300, 8)     # write deadline of Send in ms (hook H5), rounds
 DLRESET_ARGS = (300, 6)    # write deadline of Send in ms (hook H5), rounds
 
 
-def run_stall_once(d, args, tag, sub="stall"):
+def run_stall_once(d, args, tag, sub="stall", harness=None):
     """One run of `harness_pubsub stall`.  Returns (status, info): status OK | SUSPECT | SLOW.
     The verdict per round is the model's (pubsubrun seq): both PUBLISH replies = k, every healthy
     subscriber received m1 and m2.  A round that fails is SUSPECT unless every failed write to a
@@ -318,7 +318,7 @@ def run_stall_once(d, args, tag, sub="stall"):
     for f in (trace, diag, ver):
         if f.exists():
             f.unlink()
-    rc, log = lib.sh("%s %s %s %s %s" % (lib.BUILD / H, sub, " ".join(str(a) for a in args), trace, diag), cwd=d, timeout=120 + rounds * 30)
+    rc, log = lib.sh("%s %s %s %s %s" % (lib.BUILD / (harness or H), sub, " ".join(str(a) for a in args), trace, diag), cwd=d, timeout=120 + rounds * 30)
     if rc != 0 or not trace.exists():
         return "SUSPECT", dict(round="?", verdict="CRASH", detail="harness rc=%s: %s" % (rc, tail_of_go_failure(log)), program=[], writes=[])
     rc2, log2 = lib.sh("%s seq %s %s" % (lib.BUILD / RUNNER, trace, ver), cwd=d, timeout=120)
@@ -337,7 +337,7 @@ def run_stall_once(d, args, tag, sub="stall"):
         f = l.split()
         if f and f[0] == "W":
             writes.setdefault(f[1], []).append(dict(conn=int(f[2]), remaining_ms=float(f[3]), gap_ms=float(f[4]), dur_ms=float(f[5]), err=f[6]))
-    slow = None
+    slow = suspect = None
     for l in ver.read_text().splitlines():
         f = l.split(" ", 2)
         if len(f) < 2 or f[1] == "OK":
@@ -347,18 +347,22 @@ def run_stall_once(d, args, tag, sub="stall"):
         info = dict(round=f[0], verdict=f[1], detail=(f[2] if len(f) > 2 else "")[:3000], program=progs.get(f[0], []),
                     writes=(unexplained or failed)[:8], deadline_ms=dms)
         if unexplained or not failed:
-            return "SUSPECT", info
+            if suspect is None or len(info["program"]) < len(suspect["program"]):
+                suspect = info      # report the failing round with the shortest program
+            continue
         slow = info
+    if suspect:
+        return "SUSPECT", suspect
     return ("SLOW", slow) if slow else ("OK", dict(rounds=len(progs)))
 
 
-def run_stall(d, args, sub="stall"):
+def run_stall(d, args, sub="stall", harness=None):
     """SUSPECT must be seen twice to be reported; SLOW (machine too loaded to tell) is retried.
     sub="retire": the SUBSCRIBE-during-a-pruning-PUBLISH scenario (args = deadline ms, rounds), same
     trace/diag format and the same judgement."""
     suspects, last = 0, None
     for attempt in range(4):
-        st, info = run_stall_once(d, args, "%s%d" % (sub, attempt), sub=sub)
+        st, info = run_stall_once(d, args, "%s%d" % (sub, attempt), sub=sub, harness=harness)
         if st == "OK" and suspects == 0:
             return "OK", dict(attempts=attempt + 1, **info)
         if st == "SUSPECT":
@@ -410,7 +414,20 @@ def fallback_search(ctx, d, build_log):
                                         note="harness_pubsub (which also uses ChanMap.Subscribe/UnSubscribe and hook H5 directly) no longer compiles against the working tree, so the lock obligation and the API-level scenarios could not be evaluated; this program was found with the command-level build harness_pubsub_cmd (real TCP connections into server.Manager.Handle, nothing else) and compared with the extracted model as usual"))
                 ctx.violations += 1
                 return dict(evaluations=nops, readable=" | ".join(describe_ops(small)))
+    st, info = run_stall(d, (ctx.seed, 16), sub="ff", harness=HC)
+    if st != "OK":
+        ff_violation(ctx, info, (ctx.seed, 16), dict(internal_api_build_error=build_log[-1500:]), harness=HC)
+        return dict(evaluations=nops, readable=" | ".join(describe_ops(["CASE s"] + info.get("program", []) + ["END"])))
     return None
+
+
+def ff_violation(ctx, info, fargs, extra, harness=H):
+    lib.violation(PID, dict(kind="ff", harness=harness, theorem="C19_delivery_exact / C19_publish_step: a Publish operation of the model is a PUBLISH request the server received completely — whether the publisher ever reads the reply, or is still there, does not enter",
+                            args=list(fargs), program=info.get("program"),
+                            readable=describe_ops(["CASE s"] + info.get("program", []) + ["END"]),
+                            verdict=info.get("verdict"), detail=info.get("detail"), **extra,
+                            note="connection 1 wrote all its PUBLISH frames (k = 1, 2, 8, 32 by round; in the later rounds with an unrelated SET in between) in ONE write and went away at once without reading a reply: over net.Pipe by Close (the write had returned: the server had read every byte), over TCP by CloseWrite. The trace was taken after the publisher's Manager.Handle had returned. Connections 2 and 3 are subscribed and drained by reader goroutines: each must have every message, in order; connection 4 (other channel) nothing."))
+    ctx.violations += 1
 
 
 def lock_obligation(d):
@@ -433,9 +450,9 @@ def replay(ctx, d, harness=H):
         for f in findings[:5]:
             print("  ", f)
         return 1 if findings else 0
-    if r.get("kind") in ("stall", "retire", "dlreset"):
-        st, info = run_stall(d, tuple(r["args"]), sub=r["kind"])
-        print("%s scenario %s =" % (r["kind"], "(healthy subscribers, deadline ms, rounds)" if r["kind"] == "stall" else "(deadline ms, rounds)"), r["args"], "->", st)
+    if r.get("kind") in ("stall", "retire", "dlreset", "ff"):
+        st, info = run_stall(d, tuple(r["args"]), sub=r["kind"], harness=harness)
+        print("%s scenario %s =" % (r["kind"], "(healthy subscribers, deadline ms, rounds)" if r["kind"] == "stall" else "(seed, rounds)" if r["kind"] == "ff" else "(deadline ms, rounds)"), r["args"], "->", st)
         if st != "OK":
             print("   round", info.get("round"), info.get("verdict"), info.get("detail", "")[:1500])
             for w in info.get("writes", []):
@@ -508,6 +525,7 @@ def run(ctx):
     conc_stats = []
     stall_info = {}
     retire_info = {}
+    ff_info = {}
     dlreset_info = {}
     samples = []
     if built:
@@ -554,6 +572,14 @@ def run(ctx):
                                     note="every byte each connection received, decoded by the extracted decoder, must equal the model's output queue (= the specification by the theorems); 'conn=<c> model=… observed=…' names the first connection that differs"))
             ctx.violations += 1
             rc = 1
+        # ---- fire-and-forget publishers: every PUBLISH the server received completely is delivered
+        if rc == 0:
+            fargs = (ctx.seed, 16 if not thorough else 96)
+            st, ff_info = run_stall(d, fargs, sub="ff")
+            ff_info["args"] = list(fargs)
+            if st != "OK":
+                ff_violation(ctx, ff_info, fargs, extra)
+                rc = 1
         # ---- one subscriber that never reads must cost the others nothing
         if rc == 0:
             sargs = STALL_ARGS if not thorough else (7, 700, 8)
@@ -647,7 +673,7 @@ def run(ctx):
         evaluations=seq_stats["ops"] + sum(s["publishes"] for s in conc_stats),
         distinct_nontrivial=seq_stats["nontrivial"],
         rule="sequential: 10 fixed programs (repeated SUBSCRIBE, client gone, dead connection, framing, retire/re-create a channel…) + seeded random programs of 3-28 operations (SUBSCRIBE of 1-3 channels, PUBLISH, API-level UnSubscribe, client close, server-side kill) over 2-5 connections and 1-3 channels with names/payloads containing CR LF NUL 0xff, RESP look-alikes, empty and long (to 70 kB) byte strings; a program counts as non-trivial when it subscribes, publishes and at least one message push was delivered and compared; evaluations = operations executed sequentially + PUBLISH commands of the concurrent runs",
-        sequential=seq_stats, stalled_subscriber=stall_info, subscribe_during_pruning_publish=retire_info, write_deadline_not_taken_away=dlreset_info, concurrent=conc_stats, samples=samples or ["(none)"],
+        sequential=seq_stats, fire_and_forget_publishers=ff_info, stalled_subscriber=stall_info, subscribe_during_pruning_publish=retire_info, write_deadline_not_taken_away=dlreset_info, concurrent=conc_stats, samples=samples or ["(none)"],
         correspondence="bytes received on every connection (real TCP, server.Manager.Handle from the working tree) decoded by extracted decode_stream and compared by extracted observed_match with outq of the extracted model",
     ))
     lib.write_evidence(PID, ctx.tier, ctx.seed, cov,
